@@ -76,11 +76,20 @@ def run(ctx):
     ctx.add("states", dist)
     ctx.add("transitions", gen)
     ctx.add("traces_validated_against_impl", len(traces))
+    hist = [t for t in traces if t.get("op") != "conn"]
+    connrecs = [t for t in traces if t.get("op") == "conn"]
     ctx.cov["behaviours_generated"] = len(stim)
-    ctx.cov["events_validated"] = sum(len(t["ev"]) for t in traces)
-    ctx.cov["events_settled_as_predicted"] = sum(1 for t in traces for e in t["ev"] if e["settled"])
+    ctx.cov["events_validated"] = sum(len(t["ev"]) for t in hist)
+    ctx.cov["events_settled_as_predicted"] = sum(1 for t in hist for e in t["ev"] if e["settled"])
+    ctx.cov["connection_configurations"] = [[c["transport"], c["l"], c["el"], c["maxTotal"], c["maxPerPath"]] for c in connrecs]
     for clause, idxs in sorted(bad.items()):
         ts = [traces[i] for i in idxs]
+        if clause == "C16_ConnLimits":
+            for c in ts:
+                vf.report(ctx, clause, {"transport": c["transport"], "l": c["l"], "el": c["el"]},
+                          "a real %s client connection configured with total limit %d / per-endpoint limit %d had %d requests on the wire at once (%d for one path), all calls returned: %s" % (
+                              c["transport"], c["l"], c["el"], c["maxTotal"], c["maxPerPath"], c["allReturned"]), {"record": c, "cmd": "bin/check C16 --tier %s" % ctx.tier})
+            continue
         if clause == "K16_Conforms":
             ctx.drift.append({"clause": clause, "traces": len(ts), "first": [e["act"] for e in ts[0]["ev"]][:14]})
             continue
@@ -96,12 +105,14 @@ def run(ctx):
                       {"trace": t0, "cmd": "bin/check C16 --tier %s" % ctx.tier})
 
     def mutate(t, rng):
+        if t.get("op") == "conn":
+            return None
         ev = [dict(e) for e in t["ev"]]
         ev[-1] = dict(ev[-1], maxPerPath=t["el"] + 1)
         t["ev"] = ev
         return t
     vf.negative_control(ctx, "limiter", "RecC16", "RecC16.cfg", traces, mutate)
-    t0 = traces[0]
+    t0 = hist[0]
     ctx.sample({"el": t0["el"], "l": t0["l"], "pathOf": t0["pathOf"], "events": [[e["act"]["a"], e["act"]["r"], e["st"]["inDo"], e["st"]["ret"]] for e in t0["ev"]][:8]})
     ctx.assumptions += ["requests are driven one event at a time with a wait for quiescence (observed state equals the state M predicts and stays so for 2 ms); the gauges inside do are monitored continuously",
                         "FIFO is decided from outside only for endpoint limit 1 (with a larger limit the order of entering do is not determined by the limiter)"]
